@@ -103,6 +103,46 @@ func judgeC03(rec *stats.Rec, c c03Case) (string, string) {
 	if sig, msg := check(v, run.Exp, "DER"); msg != "" {
 		return sig, msg
 	}
+	// the same lints reached through the deprecated lookups (Registry.ByName / BySource hand out
+	// *lint.Lint copies with their own window fields): same window, same verdict
+	if c.Kind == gen.Cert {
+		names := make([]string, 0, len(v))
+		for n := range v {
+			names = append(names, n)
+		}
+		sort.Strings(names)
+		c3, _ := gen.ParseCert(c.DER)
+		for _, n := range names {
+			dep := run.Reg.ByName(n)
+			if dep == nil {
+				return "deprecated-lookup|" + n, "Registry.ByName does not know a certificate lint of the registry"
+			}
+			m := run.Metas[n]
+			in := model.Window(m.EffectiveDate, m.IneffectiveDate, date)
+			if got := dep.CheckEffective(c3); got != in {
+				return "deprecated-window|" + n, fmt.Sprintf("Registry.ByName(%q).CheckEffective = %v for an object dated %s, window [%s, %s)", n, got,
+					date.UTC().Format(time.RFC3339), fmtDate(m.EffectiveDate), fmtDate(m.IneffectiveDate))
+			}
+			if r := dep.Execute(c3, run.Cfg); r == nil || r.Status != v[n].Status {
+				st := "nil"
+				if r != nil {
+					st = r.Status.String()
+				}
+				return "deprecated-verdict|" + n, fmt.Sprintf("Registry.ByName(%q).Execute reports %s, the registry run reports %s (object dated %s)", n, st, v[n].Status, date.UTC().Format(time.RFC3339))
+			}
+		}
+		for _, src := range run.Reg.Sources() {
+			for _, dep := range run.Reg.BySource(src) {
+				m, ok := run.Metas[dep.Name]
+				if !ok {
+					continue
+				}
+				if got, in := dep.CheckEffective(c3), model.Window(m.EffectiveDate, m.IneffectiveDate, date); got != in {
+					return "deprecated-window|" + dep.Name, fmt.Sprintf("Registry.BySource(%s) lint %q: CheckEffective = %v, window says %v", src, dep.Name, got, in)
+				}
+			}
+		}
+	}
 	// time-zone independence through the parsed struct
 	if c.InZone != "" {
 		loc := time.FixedZone(c.InZone, zoneOffset(c.InZone))
